@@ -5,10 +5,10 @@ import "github.com/tetratelabs/wazero/verifharness/wenc"
 // Instruction classes of the memory-accessing instructions (evidence is
 // counted per class; the model has one semantic function per class).
 const (
-	clLoad      = "load"            // scalar loads incl. sign/zero extending, f32/f64
-	clStore     = "store"           // scalar stores
-	clVLoad     = "v128.load"       // full 16-byte load
-	clVStore    = "v128.store"      // full 16-byte store
+	clLoad      = "load"             // scalar loads incl. sign/zero extending, f32/f64
+	clStore     = "store"            // scalar stores
+	clVLoad     = "v128.load"        // full 16-byte load
+	clVStore    = "v128.store"       // full 16-byte store
 	clVExtend   = "v128.load-extend" // load8x8/16x4/32x2 _s/_u
 	clVSplat    = "v128.load-splat"
 	clVZero     = "v128.load-zero"
